@@ -1,14 +1,22 @@
 package props
 
 import (
+	"bytes"
 	"context"
+	"errors"
 	"fmt"
+	"io"
 	"time"
+
+	"github.com/opencontainers/go-digest"
 
 	"github.com/regclient/regclient/internal/pqueue"
 	"github.com/regclient/regclient/internal/reqmeta"
 	"github.com/regclient/regclient/internal/verif/core"
+	"github.com/regclient/regclient/internal/verif/gen"
+	"github.com/regclient/regclient/internal/verif/simnet"
 	"github.com/regclient/regclient/internal/verif/simrt"
+	"github.com/regclient/regclient/types/descriptor"
 )
 
 // C17: throttles never exceed their limit, never deadlock, never lose a slot.
@@ -34,6 +42,10 @@ type c17Op struct {
 // The queue is generic: reghttp instantiates it with reqmeta.Data (size-aware priority), regsync and regbot with the
 // zero-size struct{} - for which all element addresses coincide, so both instantiations are run.
 func runC17(e *core.Env) {
+	if e.Choose("gen", 5, "level") == 4 {
+		c17Client(e)
+		return
+	}
 	if e.Choose("gen", 3, "elemtype") == 2 {
 		e.Probe("element-type:struct{}")
 		runC17T(e, "struct{}", func(reqmeta.Data) struct{} { return struct{}{} }, nil)
@@ -230,4 +242,115 @@ func runC17T[T any](e *core.Env, tname string, mk func(reqmeta.Data) T, next fun
 			d()
 		}
 	}
+}
+
+// onlyReader hides Seek: a stream that cannot be sent twice.
+type onlyReader struct{ r io.Reader }
+
+func (o onlyReader) Read(p []byte) (int, error) { return o.r.Read(p) }
+
+// c17Client: the host throttle as the client uses it. One public operation runs against a registry with up to
+// three transient faults on its requests (so that error and retry paths are taken), possibly with a body left
+// unread or closed early; afterwards every request slot of the host must be free again: as many responses as the
+// host allows concurrent requests can be opened and held at the same time.
+func c17Client(e *core.Env) {
+	ctx := context.Background()
+	w := newWorld(e)
+	w.Concurrent = int64(1 + e.Choose("gen", 3, "concurrent"))
+	reg := w.AddReg("reg.test")
+	reg.K.Mount = e.Choose("gen", 3, "mount")
+	g := gen.New(e.Tape)
+	g.MaxBlob = 300
+	g.NoExt = true
+	gr := g.Graph(gen.Opts{NoDigestTags: true})
+	gr.Install(reg, "proj/app", "v1")
+	audit := []byte("content of the blob the audit reads")
+	auditDig := reg.PutBlob("proj/app", audit)
+	var someBlob *gen.Blob
+	for _, n := range gr.AllNodes() {
+		for _, b := range n.Blobs {
+			if b.Hosted && !b.External && len(b.Data) > 2 && someBlob == nil {
+				someBlob = b
+			}
+		}
+	}
+	w.Net.Rate = 300
+	w.Net.MaxFaults = 1 + e.Choose("gen", 3, "nfaults")
+	w.Net.Enabled = []int{simnet.F500, simnet.F502, simnet.F429, simnet.FConnReset, simnet.FTruncate, simnet.F404, simnet.F504}
+	rc := w.Client()
+	op := []string{"blob-put-stream", "blob-put-stream", "blob-put-seekable", "blob-get-read", "blob-get-close-early", "manifest-get", "image-copy-same-registry", "blob-copy", "tag-list"}[e.Choose("gen", 9, "op")]
+	sample := map[string]any{"level": "client (host throttle through public operations)", "op": op, "req_concurrent": w.Concurrent, "faults_max": w.Net.MaxFaults}
+	e.SetCase(fmt.Sprintf("client|%s|%d|%d|%s", op, w.Concurrent, w.Net.MaxFaults, gr.Root.Digest), true, sample)
+	e.Probe("level:client")
+	r := mustRef("reg.test/proj/app:v1")
+	data := g.Bytes(1 + e.Choose("gen", 600, "putlen"))
+	var err error
+	switch op {
+	case "blob-put-stream":
+		// with a full descriptor the stream goes out in a single PUT, which cannot be repeated after a failure
+		d := descriptor.Descriptor{}
+		if e.Choose("gen", 2, "fulldesc") == 1 {
+			d = descriptor.Descriptor{Digest: digest.FromBytes(data), Size: int64(len(data))}
+		}
+		_, err = rc.BlobPut(ctx, mustRef("reg.test/proj/up"), d, onlyReader{bytes.NewReader(data)})
+	case "blob-put-seekable":
+		_, err = rc.BlobPut(ctx, mustRef("reg.test/proj/up"), descriptor.Descriptor{Digest: digest.FromBytes(data), Size: int64(len(data))}, bytes.NewReader(data))
+	case "blob-get-read", "blob-get-close-early":
+		if someBlob == nil {
+			break
+		}
+		var br io.ReadCloser
+		br, err = rc.BlobGet(ctx, r, descriptor.Descriptor{Digest: digest.Digest(someBlob.Desc.Digest), Size: int64(len(someBlob.Data))})
+		if err == nil {
+			if op == "blob-get-read" {
+				_, err = io.ReadAll(br)
+			} else {
+				_, _ = br.Read(make([]byte, 1))
+			}
+			_ = br.Close()
+		}
+	case "manifest-get":
+		_, err = rc.ManifestGet(ctx, r)
+	case "image-copy-same-registry":
+		err = rc.ImageCopy(ctx, r, mustRef("reg.test/copy/app:v1"))
+	case "blob-copy":
+		if someBlob != nil {
+			err = rc.BlobCopy(ctx, r, mustRef("reg.test/copy/app"), descriptor.Descriptor{Digest: digest.Digest(someBlob.Desc.Digest), Size: int64(len(someBlob.Data))})
+		}
+	case "tag-list":
+		_, err = rc.TagList(ctx, r)
+	}
+	simrt.Event("%s -> %v", op, err)
+	if err != nil {
+		e.Probe("client-op-failed")
+	} else {
+		e.Probe("client-op-ok")
+	}
+	for k, v := range w.Net.Fired {
+		for i := 0; i < v; i++ {
+			e.Fault(k)
+		}
+	}
+	drainTasks(e, 30)
+	// audit, without faults: hold as many responses open as the host admits concurrent requests
+	w.Net.Enabled = nil
+	actx, cancel := context.WithTimeout(ctx, 10*time.Hour)
+	defer cancel()
+	var open []io.Closer
+	for i := 0; i < int(w.Concurrent); i++ {
+		br, aerr := rc.BlobGet(actx, r, descriptor.Descriptor{Digest: digest.Digest(auditDig), Size: int64(len(audit))})
+		if aerr != nil {
+			if errors.Is(aerr, context.DeadlineExceeded) {
+				e.Violation("slot-lost", "host-slot-lost-after:"+op, "after %s (err=%v) with reqConcurrent %d only %d responses could be held open at once: request %d waited for a slot until its deadline", op, err, w.Concurrent, i, i+1)
+			} else {
+				e.Probe("audit-request-failed")
+			}
+			break
+		}
+		open = append(open, br)
+	}
+	for _, c := range open {
+		_ = c.Close()
+	}
+	e.Probe("host-slots-audited")
 }
